@@ -191,12 +191,11 @@ Qed.
 End Objective.
 
 (* ---------------- the shipped table ---------------- *)
+Lemma table_keys_distinct : forall cs, keys_distinct _ _ _ (table cs).
+Proof. intros cs. unfold keys_distinct. cbn. repeat constructor; cbn; intuition discriminate. Qed.
 Lemma shipped_keys_distinct : keys_distinct _ _ _ shipped.
-Proof. unfold keys_distinct. cbn. repeat constructor; cbn; intuition discriminate. Qed.
-Lemma shipped_without_compat_keys_distinct : keys_distinct _ _ _ shipped_without_compat.
-Proof. unfold keys_distinct. cbn. repeat constructor; cbn; intuition discriminate. Qed.
-Lemma shipped_without_compat_refreshes :
-  forall f, In f shipped_without_compat -> refreshes_on_handover _ _ _ f = true.
+Proof. apply table_keys_distinct. Qed.
+Lemma shipped_refreshes : forall f, In f shipped -> refreshes_on_handover _ _ _ f = true.
 Proof. intros f Hin. cbn in Hin. intuition (subst; reflexivity). Qed.
 
 (* inserting a job at any position *)
@@ -209,25 +208,32 @@ Proof.
   rewrite !map_app, !filter_app. cbn [map filter]. rewrite Hj. reflexivity.
 Qed.
 
-Lemma shipped_insertion_exact : forall k, insertion_exact _ _ _ shipped (ins_at k).
+Lemma table_insertion_exact : forall cs k, insertion_exact _ _ _ (table cs) (ins_at k).
 Proof.
-  intros k f Hin j t Hno. cbn in Hin. destruct Hin as [<-|[<-|[<-|[<-|[]]]]]; cbn in Hno; try discriminate.
+  intros cs k f Hin j t Hno. cbn in Hin. destruct Hin as [<-|[<-|[<-|[<-|[]]]]]; cbn in Hno; try discriminate.
   - cbn [f_compute]. unfold first_compat. apply negb_false_iff, Z.eqb_eq in Hno.
     rewrite (filter_nonzero_ins tj_compat k j t Hno). reflexivity.
   - cbn [f_compute]. unfold groups_set. apply negb_false_iff, Z.eqb_eq in Hno.
     rewrite (filter_nonzero_ins tj_group k j t Hno). reflexivity.
 Qed.
+Lemma shipped_insertion_exact : forall k, insertion_exact _ _ _ shipped (ins_at k).
+Proof. apply table_insertion_exact. Qed.
 
-(* the witness of probe observation 11: the only job carrying a compatibility tag leaves the tour (ruin), then the
-   solution-level refresh runs (restore): the tag stays although recomputation from the tour gives none *)
+(* the witness of probe observation 11, about the table BEFORE b397f8a: the only job carrying a compatibility tag leaves
+   the tour (ruin), then the solution-level refresh runs (restore): the tag stays although recomputation gives none *)
 Definition witness_tour : list tjob := [(2, 0, 0); (1, 1, 0)].
-Definition witness_fresh : rctx (list tjob) cval :=
-  accept_route_state _ _ _ shipped (mkRctx witness_tour (fun _ => None) true).
-Definition witness_after : list (rctx (list tjob) cval) :=
-  accept_solution_state _ _ _ shipped [route_mut _ _ (remove_tjob 1) witness_fresh].
+Definition witness_fresh (fs : list (feature (list tjob) tjob cval)) : rctx (list tjob) cval :=
+  accept_route_state _ _ _ fs (mkRctx witness_tour (fun _ => None) true).
+Definition witness_after (fs : list (feature (list tjob) tjob cval)) : list (rctx (list tjob) cval) :=
+  accept_solution_state _ _ _ fs [route_mut _ _ (remove_tjob 1) (witness_fresh fs)].
 
-Lemma compat_stale_after_removal :
-  exists r, In r witness_after /\ rc_stale r = false /\
-            rc_state r 2%nat = Some (CCompat 1) /\ recompute _ _ _ shipped (rc_tour r) 2%nat = None.
+Lemma compat_stale_after_removal_before_fix :
+  exists r, In r (witness_after shipped_before_b397f8a) /\ rc_stale r = false /\
+            rc_state r 2%nat = Some (CCompat 1) /\ recompute _ _ _ shipped_before_b397f8a (rc_tour r) 2%nat = None.
 Proof. eexists. split; [left; reflexivity|]. vm_compute. auto. Qed.
 
+(* the same history on the table as shipped now: the tag is gone, as recomputation says *)
+Lemma compat_fresh_after_removal_shipped :
+  forall r, In r (witness_after shipped) -> rc_stale r = false /\ rc_state r 2%nat = None /\
+            recompute _ _ _ shipped (rc_tour r) 2%nat = None.
+Proof. intros r [<-|[]]. vm_compute. auto. Qed.
